@@ -406,8 +406,16 @@ func (vt *v2T) scenC06() {
 				return strings.Join(f, " ")
 			})
 			if changed {
-				rb := vt.match(c, []byte(strings.Join(out, "\n")), v2MatchOpts{})
+				y := []byte(strings.Join(out, "\n"))
+				rb := vt.match(c, y, v2MatchOpts{})
 				vt.pair(ra, rb, "spelling", 0, v2Ident(len(lines)), false, nil, lab)
+				// ... also once the other spelling is a word of the shared dictionary (Normalize registers the
+				// spellings it keeps)
+				if xi%3 == 0 {
+					c.c.Normalize(append([]byte(nil), y...))
+					rb2 := vt.match(c, y, v2MatchOpts{})
+					vt.pair(ra, rb2, "spelling-after-normalize", 0, v2Ident(len(lines)), false, nil, lab)
+				}
 			}
 			sw := bytes.Contains(x, []byte("http://")) || bytes.Contains(x, []byte("https://"))
 			if sw {
